@@ -176,6 +176,19 @@ def run(ctx):
                     ob2.refute("ce:%s:%s:%s" % (side, nm, tag), "%s: %s advances under %s (drivers %s), expected exactly once per accepted %s (%s with "
                                "the other handshake signal held at 1 in that state)" % (side, nm, sorted(gk), [str(d) for d in ds],
                                                                                      "word" if nm == "data_gen" else "command", sorted(fire)), ds[0].loc if ds else None)
+        # a request may only be offered where its acceptance is counted: every state that raises dma.sink.valid also advances the address generator under the
+        # handshake (a request accepted in any other state is issued a second time)
+        for v, side, RR in ((g, "generator", RG), (c, "checker", RC)):
+            dma = RR["dma"]
+            ces = [l for l in v.leaves if l.kind == "assign" and key(l.target) == str(RR["addr"]) + ".ce" and not is0(l.value)]
+            ce_states = {(id(l.fsm), l.state) for l in ces if l.fsm is not None}
+            offers = [l for l in v.leaves if l.kind == "assign" and key(l.target) == dma + ".sink.valid" and not is0(l.value)]
+            ob2.instance("%s %s: states offering a request" % (tag, side), sorted({str(l.state) for l in offers}))
+            for l in offers:
+                if l.fsm is not None and ces and (id(l.fsm), l.state) not in ce_states:
+                    ob2.refute("offer-uncounted:%s:%s:%s" % (side, l.state, tag), "%s: state %s offers a request to the DMA (%s) but the address generator / command counter only "
+                               "advance in state(s) %s: a request accepted in %s is issued again from there - the checker then reads one word more than it compares" %
+                               (side, l.state, str(l)[:80], sorted({str(x.state) for x in ces}), l.state), l.loc)
         # ---- C14.3 ----
         # the error counter: the register incremented under a comparison with the returned data
         ERR = None
